@@ -591,6 +591,40 @@ def not_a_packet(sx):
     sx.check(h.can_handle(data, SENDER) == (starts & ends), "frm.can-handle-iff-framed")
 
 
+def m_statp_ack_per_update(sx):
+    """one long-lived threaded STATP listener, two updates from two different peers: every queued acknowledgement,
+    read when the engine gets round to sending it (after both arrived), is the STATQ built for ITS update - its own
+    sequence byte, addressed back to its own sender with the identifiers swapped (round-7 seeded change)."""
+    import geckolib.driver.protocol as P
+    queued = []
+    seqs = [sx.int_("seq0", 1, 191), sx.int_("seq1", 1, 191)]
+
+    class Sock:
+        def queue_send(self, h, dest=None):
+            queued.append((h, dest))
+
+        def get_and_increment_sequence_counter(self, cmd=False):
+            return seqs[len(queued)]
+    senders = [SENDER, ("10.9.8.7", 10022, b"SPA0a:0b:0c:0d:0e:0f", b"IOS11111111-2222-3333-4444-555555555555")]
+    h = P.GeckoPartialStatusBlockProtocolHandler(Sock())
+    for k, snd in enumerate(senders):
+        ch = [(sx.word(f"pos{k}"), sx.bytes_(f"data{k}", 2))]
+        m = P.GeckoPartialStatusBlockProtocolHandler.report_changes(None, ch, parms=snd)
+        sx.check(h.can_handle(m._content, snd), "rt.seq.statp-claimed")
+        h.handle(m._content, snd)
+        h.changes.clear()          # what the client's on-handled callback does
+    sx.check(len(queued) == 2, "rt.seq.one-ack-per-update", lambda: str(len(queued)))
+    for k, ((a, dest), snd) in enumerate(zip(queued, senders)):
+        exp = (b"<PACKT><SRCCN>" + snd[3] + b"</SRCCN><DESCN>" + snd[2] + b"</DESCN><DATAS>STATQ")
+        data = a.send_bytes
+        sx.check(dest == snd, f"rt.seq.ack{k}-sent-to-its-sender")
+        sx.check(len(data) == len(exp) + 1 + 16, f"rt.seq.ack{k}-length", lambda: str(len(data)))
+        sx.check(data[:len(exp)] == exp, f"rt.seq.ack{k}-addressed-back-with-identifiers-swapped")
+        sx.check(data[len(exp)] == seqs[k], f"rt.seq.ack{k}-carries-the-sequence-it-was-built-from",
+                 lambda: f"{data[len(exp)]} vs {seqs[k]}")
+        sx.check(data[len(exp) + 1:] == b"</DATAS></PACKT>", f"rt.seq.ack{k}-closing-tags")
+
+
 def units(tier):
     yield Unit("msg.requests", m_simple_requests)
     yield Unit("msg.fixed", m_fixed)
@@ -605,6 +639,7 @@ def units(tier):
     yield Unit("msg.watercare", m_watercare)
     yield Unit("msg.pack-sequence", m_pack_sequence)
     yield Unit("msg.other-sequences", m_other_sequences)
+    yield Unit("msg.statp-ack-per-update", m_statp_ack_per_update)
     yield Unit("msg.reminders", m_reminders(tier))
     yield Unit("msg.hello", m_hello, max_paths=50000)
     lens = 7 if tier == "quick" else 49
